@@ -17,7 +17,7 @@ RULES = {
          "request in a range around -3..320, i32 extremes, usize and Option forms, fractions in [0,1]; shape, range, "
          "normalisation and coverage judged against the exact aggregated distribution; class as for C03"),
 }
-MODULES = ["Props.C09", "Props.C03Exact", "Props.C09Strict", "Inst.C09Strict", "Inst.Consts", "Props.C09Mz", "Inst.C09Mz"]
+MODULES = ["Props.C09", "Props.C03Exact", "Props.C09Strict", "Inst.C09Strict", "Inst.Consts", "Props.C09Mz", "Inst.C09Mz", "Inst.C09Req"]
 
 
 def run(r: Run):
